@@ -34,7 +34,7 @@ CHECKS = {
    note="When one pattern has several lengths of equal extent the statement does not choose; any of them is accepted."),
  "C06": dict(engine="E3 histcheck (hookcheck)", cat="model_checking", ref="§3.3 E3, §4.4, §5 C06",
    technique="explicit-state BFS to closure over call histories (next / peek_n / set_mode) of the real iterator on every mode graph of a bounded family, in lockstep with a mode model; hybrid with a stateless prefix",
-   text="For every (mode graph, input) pair the space of call histories is searched to closure: each transition calls the real method on a fresh replay of the shortest history, states are deduplicated by the snapshot of the real iterator fields plus the model state, current_mode() and every returned token are compared with the configured transitions. Histories up to a stated length are additionally expanded without deduplication. Plus scripted checks (Scanner::set_mode before find_iter, reuse after a partial iteration, mode_name).",
+   text="For every (mode graph, input) pair the space of call histories is searched to closure: each transition calls the real method on a fresh replay of the shortest history, states are deduplicated by the snapshot of the real iterator fields plus the model state, current_mode() and every returned token are compared with the configured transitions. Histories up to a stated length are additionally expanded without deduplication. Plus scripted checks (Scanner::set_mode before find_iter, reuse after a partial iteration, mode_name), one family built through the cache (configurations that differ only in their transitions), lookahead modes that share token types, and rings of 300 / 65 600 modes started at the u8/u16 borders.",
    note="Trusted: the snapshot hook lists every mutable field (the stateless prefix covers fields it might miss). set_mode to a missing mode is unspecified and never generated."),
  "C07": dict(engine="E2 scancheck + stateless history enumeration (pubcheck)", cat="exploration", ref="§5 C07",
    technique="bounded-exhaustive enumeration: safety invariants on every scan of the C04/C05 families, on a nullable-pattern/nullable-lookahead/zero-pattern family over 1-4 byte characters from every offset, and along every call history up to depth D (next / peek_n / advance_to / set_offset / set_mode) followed by a drain",
@@ -50,7 +50,7 @@ CHECKS = {
    note="Only offsets inside the contiguously scanned prefix are specified; forward jumps over unscanned text leave a gap that is not compared."),
  "C10": dict(engine="E3 histcheck (hookcheck)", cat="model_checking", ref="§3.3 E3, §4.4, §5 C10",
    technique="explicit-state BFS to closure over histories with set_offset(every boundary, beyond the end), with peek_n and advance_to(peeked end), against a model whose scan from (offset, mode) does not depend on the past",
-   text="After any history followed by set_offset(o) the tokens must be those of a scan from o in the current mode with absolute spans; advance_to(end of a just peeked match) must make the next token the following one. Mode graphs, lookahead modes and multi-byte/newline configurations.",
+   text="After any history followed by set_offset(o) the tokens must be those of a scan from o in the current mode with absolute spans; advance_to(end of a just peeked match) must make the next token the following one. Mode graphs, lookahead modes, multi-byte/newline configurations and gap configurations on inputs up to length 6 (what lies behind a reset point longer than what follows).",
    note="advance_to is only driven with the end of a match peeked in the current state; offsets inside a character are never generated."),
  "C11": dict(engine="E3 histcheck (hookcheck)", cat="model_checking", ref="§3.3 E3, §4.4, §5 C11",
    technique="explicit-state BFS to closure with peek_n(0,1,2,3,|x|+1) enabled in every state; peek result compared with the model's next-n tokens and classification; purity by snapshot comparison",
@@ -58,31 +58,31 @@ CHECKS = {
    note="Corner left open by the statement: exactly n matches found and the n-th triggers a switch - both Matches and MatchesReachedModeSwitch are accepted."),
  "C12": dict(engine="E3m (pubcheck)", cat="model_checking", ref="§5 C12",
    technique="exhaustive enumeration of all interleavings of two per-iterator scripts plus one scanner-level event on one Scanner and on two scanners sharing a cached compilation; differential oracle (same script alone on a fresh uncached scanner); peek-transparency differential on one iterator",
-   text="Every schedule (script pair x interleaving x event placement) is executed on the real objects and each iterator's observations must equal those of its script run alone; on a single iterator every script with peeks must observe what the same script without its peeks observes.",
-   note="Single-threaded interleaving (concurrency is C14). No reference semantics involved."),
+   text="Every schedule (script pair x interleaving x event placement) is executed on the real objects and each iterator's observations must equal those of its script run alone; on a single iterator every script with peeks (peek_n(1|2|100)) must observe what the same script without its peeks observes (tokens, modes, position() of both token ends); a fresh scanner scanning x1 then x2, for all ordered pairs of inputs over {U+0000, a, e-acute, U+10FFFF}, is compared with the reference on both scans.",
+   note="Single-threaded interleaving (concurrency is C14). The interleaving and peek parts are differential; the history-independence part uses the reference scanner."),
  "C13": dict(engine="E5 cachecheck (hookcheck)", cat="model_checking", ref="§5 C13",
    technique="explicit-state BFS over cache states (sets of built members of a family of equal/near-identical/unrelated/failing configurations); every build() compared with build_uncached() by dump, mode names and token streams",
-   text="From every cache state (reached by clear + builds) every member is built through the cache and compared with its uncached build; failing builds must return Err and leave later builds unaffected.",
+   text="From every cache state (reached by clear + builds) every member is built through the cache (twice) and compared with its uncached build by mode names, token streams, modes after every token and peek results; every failing member is built after clear / after any one good member and followed by a build of every member; one long history without clear (1 100 distinct configurations, thorough 70 000, with re-builds of early ones at every power of two) covers capacity-dependent behaviour.",
    note="The cache_clear/cache_keys hooks only make cache states reachable and observable in one process. Single-threaded."),
  "C14": dict(engine="E6 loomcheck", cat="model_checking", ref="§3.2 H5, §5 C14",
-   technique="loom (DPOR, all schedules, no preemption bound) over the real build()/find_iter/peek_n code through a std-shadowing facade; Send+Sync by compile probe",
-   text="For each of ~140 small thread harness bodies (2 threads x 1-2 ops, 3 threads x 1 op: builds of equal/near-identical/failing configurations, scans and peeks on a shared Arc<Scanner>) loom explores every schedule; every thread must observe the sequential results, the cache must end with one entry per built configuration, no deadlock or panic. `Scanner: Send + Sync` is a type-system fact decided by a compile probe.",
-   note="Scheduling points exist only where the code synchronises through std::sync / std::thread (routed to loom); std's Arc reference counts are not scheduling points; unsynchronised accesses through unsafe are invisible to loom."),
+   technique="loom (DPOR, all schedules, no preemption bound) over the real build()/Scanner::try_from/find_iter/peek_n code through a std-shadowing facade whose locks make try_lock failures and writer-preferring RwLock blocking reachable; Send+Sync by compile probe",
+   text="For each of ~210 small thread harness bodies (2 threads x 1-2 ops, 3 threads x 1 op: builds of equal/near-identical/failing configurations through both builders and Scanner::try_from, scans and peeks on two shared Arc<Scanner>, one of them with lookaheads checked alternately within a token, caches pre-filled around typical capacity bounds) loom explores every schedule; every thread must observe the sequential results, no deadlock or panic. `Scanner: Send + Sync` is a type-system fact decided by a compile probe.",
+   note="Scheduling points exist only where the code synchronises through std::sync / std::thread (routed to loom); std's Arc reference counts are not scheduling points; unsynchronised accesses through unsafe are invisible to loom. The facade's Mutex adds a probe cell so that try_lock can fail, its RwLock is built on loom's Mutex+Condvar and prefers writers (std documents that a waiting writer may block readers). A free-running stress pass on OS threads is supporting evidence only."),
  "C15": dict(engine="E4 enumcheck (pubcheck)", cat="exploration", ref="§5 C15",
-   technique="exhaustive enumeration of every token string up to length L over a 30-token regex alphabet, structured planting of constructs in every context x slot, long multi-byte patterns, and the same through the cache; classification oracle from the AST",
+   technique="exhaustive enumeration of every token string up to length L over a 30-token regex alphabet, structured planting of constructs in every context x slot, long multi-byte patterns, twin spellings of one Unicode property, border ranges, Unicode class names outside the documented list, and the same through the cache; classification oracle from the AST",
    text="Every element of the stated finite spaces is handed to build()/build_uncached() inside catch_unwind with debug assertions on: syntax errors and unsupported constructs anywhere must give Err, the supported fragment must build, nothing may panic.",
-   note="A named Unicode class is unsupported iff it does not build when used alone (fixed anchors from the statement are asserted). Repetition counts stay small."),
+   note="In the token-string and planting families a named Unicode class is unsupported iff it does not build when used alone (fixed anchors from the statement are asserted); this circular part is closed by family (g): names outside scnr's documented list must be rejected if Unicode does not know them, and must denote their own property (compared with regex-syntax's Unicode tables over all scalars) if they build. Repetition counts stay small."),
  "C16": dict(engine="E4 enumcheck (pubcheck)", cat="exploration", ref="§5 C16",
-   technique="exhaustive enumeration of a finite product of special strings, boundary numbers, lookahead options and transition lists; three serialization routes read back; independent hand-written JSON in the README layout; behaviour of original vs read-back",
+   technique="exhaustive enumeration of a finite product of special strings, every string of <= 2 ASCII characters in every text position, boundary numbers, lookahead options and transition lists; three serialization routes read back; independent hand-written JSON in the README layout; behaviour of original vs read-back",
    text="Every configuration of the product round-trips by ==, re-serializes identically, equals an independently written JSON in the README layout in both directions and, if it builds, behaves like its read-back twin; the README JSON block is extracted and exercised; Match/MatchExt/Span/Position round-trip on boundary numbers.",
    note="Configurations are built through the public constructors with sorted transition lists."),
  "C17": dict(engine="E1 langcheck on generated instances (hookcheck)", cat="model_checking", ref="§5 C17",
    technique="fixed instance list built through the public API; each built scanner decided for ALL strings by the explicit-state product of its dumped automaton with the reference automaton, its minimizer pairs compared the same way, the inputs the property names scanned for real",
-   text="Instances whose unminimized automaton has 1 100 .. 21 000 states (thresholds other than 2^16) and, beyond 2^16 states, 65 600 patterns `a` with distinct token types (thorough: 65 535 / 65 536 copies, 65 536 distinct literals, 13 200 keywords, a{66000}b). An error from build is accepted; a scanner that builds must tokenize exactly as the longest-match rule prescribes, which the product exploration decides for every string.",
-   note="The quick tier needs about 3.5 minutes because building one automaton beyond 2^16 states takes 2.6 minutes in scnr itself (quadratic construction); VERIF_C17_BIG=0 skips that instance (then the quick tier takes 25 s and only covers thresholds below 2^16). Not a sweep: a 2^16 boundary cannot be scaled down."),
+   text="Instances whose unminimized automaton has 1 100 .. 21 000 states (thresholds other than 2^16), instances that cross 2^16 NFA-level states through empty groups while the deterministic automaton stays small (padded keyword lists, 9 000 dense irregular patterns), large near-identical keyword lists through the cache, and, beyond 2^16 deterministic states, 65 600 patterns `a` with distinct token types (thorough: 65 535 / 65 536 copies, 65 536 distinct literals, 13 200 keywords, a{66000}b). An error from build is accepted; a scanner that builds must tokenize exactly as the longest-match rule prescribes, which the product exploration decides for every string.",
+   note="The quick tier needs about 3.5 minutes because building one automaton beyond 2^16 states takes 2.6 minutes in scnr itself (quadratic construction); VERIF_C17_BIG=0 skips that instance (then the quick tier takes about 100 s and crosses 2^16 only at the NFA level). Not a sweep: a 2^16 boundary cannot be scaled down."),
  "C18": dict(engine="E4 enumcheck (hookcheck)", cat="exploration", ref="§5 C18",
    technique="exhaustive enumeration over configuration families; every generated file parsed by a strict DOT-subset parser and compared with the automaton dump; unwritable targets",
-   text="File set (one per mode, named from prefix and mode name, incl. dots/spaces/non-ASCII), node set, accepting labels, edge multiset with class ids, one cluster per lookahead with polarity and automaton are compared with the dump; missing folder / regular file / missing parent must give Err, not a panic.",
+   text="File set (one per mode, named from prefix and mode name, incl. dots/spaces/non-ASCII), node set, accepting labels, edge multiset with class ids, one cluster per lookahead with polarity and automaton are compared with the dump; missing folder / regular file / missing parent / a directory in the place of ONE mode's file must give Err, not a panic; every other export goes into the folder as the previous export left it.",
    note="No Graphviz binary in the sandbox: the parser implements DOT's quoting rules. Class text in edge labels is not compared, only the (C#id) suffix. Read-only folders cannot be produced when running as root (reported as skipped)."),
 }
 
